@@ -552,6 +552,14 @@ C13_Accept(c, trk, call, o) ==
 \* ---- construction side: C07 / C16 / C17 / C06 / C12 --------------------------------------------------
 CtorKind(call) == IF call.op = "construct" THEN call.kind ELSE call.slot
 BoxedKind(name) == name \in {"custom", "info_req"} \/ (name \in InfoKindNames /\ InfoKind(name).dst)
+\* a heap-allocated tag handed to a builder's setter lies at an 8-aligned address, in an allocation that was requested
+\* 8-aligned with the tag's rounded size (the recorded events also contain the harness's own argument parsing: only the
+\* allocation of the tag itself is judged)
+SuppliedHeapOk(v) ==
+  Has(v, "allocs") =>
+    /\ v.al = 0
+    /\ LET A == {i \in 1..Len(v.allocs) : v.allocs[i].ev = "alloc" /\ v.allocs[i].id = v.obj} IN
+       A # {} => LET a == v.allocs[CHOOSE i \in A : \A j \in A : i >= j] IN a.size = v.sv /\ a.align % 8 = 0 /\ a.align > 0
 AcceptCtor(call, o) ==
   LET name == CtorKind(call) IN
   IF CtorPanics(name, call) THEN o.k = "panic"
@@ -562,6 +570,7 @@ AcceptCtor(call, o) ==
        /\ (Has(o.v, "id_const") => o.v.id_const = CtorId(name, call))
        /\ (Has(o.v, "place") => \A i \in 1..Len(o.v.place) : o.v.place[i].ok)       \* byte view obtainable wherever placed
        /\ (Has(o.v, "as_bytes") => o.v.as_bytes = o.v.sv)
+       /\ (BoxedKind(name) => SuppliedHeapOk(o.v))                  \* a heap-allocated tag: requested and placed 8-aligned
        \* read-back of the framebuffer type through buffer_type()
        /\ (Has(o.v, "rb_fb") =>
              /\ o.v.rb_fb.k = "ok" /\ o.v.rb_fb.t = call.fbtype
@@ -616,14 +625,6 @@ C16_Accept(c, trk, call, o) ==
            /\ (Has(o.v, "clone") => /\ EqUpTo(o.v.clone.bytes, o.v.bytes, total, FALSE)
                                     /\ HeapObjOk(o.v.clone, total) /\ CloneEq(o.v.clone))
     [] OTHER -> TRUE
-\* a heap-allocated tag handed to a builder's setter lies at an 8-aligned address, in an allocation that was requested
-\* 8-aligned with the tag's rounded size (the recorded events also contain the harness's own argument parsing: only the
-\* allocation of the tag itself is judged)
-SuppliedHeapOk(v) ==
-  Has(v, "allocs") =>
-    /\ v.al = 0
-    /\ LET A == {i \in 1..Len(v.allocs) : v.allocs[i].ev = "alloc" /\ v.allocs[i].id = v.obj} IN
-       A # {} => LET a == v.allocs[CHOOSE i \in A : \A j \in A : i >= j] IN a.size = v.sv /\ a.align % 8 = 0 /\ a.align > 0
 C06_Accept(c, trk, call, o) ==
   CASE call.op = "b_set" /\ trk.hasb -> o.k = "ok" => SuppliedHeapOk(o.v)
     \* the built structure loads wherever its bytes lie (the Box itself, a copy at another 8-aligned address)
